@@ -504,6 +504,11 @@ func GetTOASTVerboseInfo(toastRelID uint32, data []byte) *TOASTVerboseInfo {
 		})
 	}
 
+	// valueChunks is a map: its iteration order is random, so list the values by chunk id
+	sort.Slice(info.Values, func(i, j int) bool {
+		return info.Values[i].ChunkID < info.Values[j].ChunkID
+	})
+
 	return info
 }
 
